@@ -3,6 +3,7 @@ import FimVerif.Proofs.Lemmas.C03Small
 import FimVerif.Proofs.Lemmas.C03Gateway
 import FimVerif.Proofs.Lemmas.C03Hist
 import FimVerif.Proofs.Lemmas.C03Iso
+import FimVerif.Proofs.Lemmas.C03Text
 import FimVerif.Generated.Fields
 /-!
 # C03 — attribute value codecs are lossless, canonical and never mutate their input
@@ -662,5 +663,191 @@ theorem list_classes_sane : ∀ c ∈ Gen.Fields.all, (c.guard = .strOrList ∨ 
 example : GrowOK (fun _ _ => true) [.growX "vlan_range" (.str "5-5"), .takeUpdate, .growY "vlan" (.str "7")] := by
   intro k item _
   exact ⟨by simp_all [isStr] <;> (rename_i h; rcases h with ⟨_, rfl⟩ <;> rfl), fun _ _ => rfl⟩
+
+/-! ## Text level: `json.dumps` / `json.loads` inside the statements
+
+`JParse.parse` is the model of `json.loads` (checked against CPython on every run), `JVal.render` of `json.dumps`.
+`JParse.parse_render` proves `parse (render j) = some j` for every float-free value with distinct object keys, so the
+round trips above hold for the *texts* the codecs store, not only for the JSON values in between. -/
+open JParse
+
+/-- **`json.loads(json.dumps(j)) == j`** for every JSON value without floats whose objects have distinct keys -/
+theorem json_roundtrip (j : JVal) (hp : plain j = true) : parse j.render = some j := parse_render j hp
+
+/-- **JSONField round trip on text**: `from_json(to_json(x)) == x` with `json.dumps` / `json.loads` inside the statement
+(values without floats: every class but Location's coordinates) -/
+theorem jsonfield_text_roundtrip (c : ClassSpec) (valid : String → JVal → Bool) (hn : (names c).Nodup) (hs : SpecSane c = true)
+    (x : Fields) (hx : WellTyped c valid x) (hp : ∀ f ∈ c.fields, plain (x f.name) = true) :
+    (encode c x = none → x = defaults c ∧ decodeText c valid "None" (toJson c x) = .ok none) ∧
+    (∀ j, encode c x = some j → decodeText c valid "None" (toJson c x) = .ok (some x)) := by
+  obtain ⟨h0, h1⟩ := lossless c valid hn hs x hx
+  constructor
+  · intro he
+    exact ⟨h0 he, by simp [toJson, he, decodeText]⟩
+  · intro j he
+    have hj := encode_some c x j he
+    have hplain : plain j = true := by
+      subst hj
+      simp only [plain, Bool.and_eq_true, decide_eq_true_eq]
+      constructor
+      · apply plainK_of_forall
+        intro p hpm
+        rw [sort_mem] at hpm
+        obtain ⟨f, hf, _, _, hv⟩ := (kept_mem c.drop c x p.1 p.2).1 hpm
+        rw [hv]; exact hp f hf
+      · exact sort_keys_nodup _ (hn.sublist (kept_keys_sublist c.drop c x))
+    have hne : j.render ≠ "" ∧ j.render ≠ "None" := by
+      subst hj
+      exact ⟨render_obj_ne _ _ (Or.inl rfl), render_obj_ne _ _ (Or.inr rfl)⟩
+    simp only [toJson, he, decodeText, hne.1, hne.2, or_self, if_false, parse_render j hplain]
+    exact h1 j he
+
+
+/-- every class the translator finds, outside `str or float` (Location), for every well-typed value -/
+theorem all_classes_text_roundtrip : ∀ c ∈ Gen.Fields.all, c.guard ≠ .strOrFloat → ∀ (valid : String → JVal → Bool) (x : Fields),
+    WellTyped c valid x → ∀ j, encode c x = some j → decodeText c valid Gen.Fields.neo4jNone (toJson c x) = .ok (some x) := by
+  intro c hc hg valid x hx j he
+  obtain ⟨hn, hs, hdd⟩ := specs_sane c hc
+  have hd : ∀ f ∈ c.fields, plain f.dflt = true := (by decide : ∀ c ∈ Gen.Fields.all, ∀ f ∈ c.fields, plain f.dflt = true) c hc
+  refine (jsonfield_text_roundtrip c valid hn hs x hx ?_).2 j he
+  intro f hf
+  rcases hx.1 f hf with ⟨e, _⟩ | ⟨hdom, _⟩
+  · rw [e]; exact hd f hf
+  · exact inDomain_plain c.guard _ hg hdom
+
+/-- ... and `Location`: a coordinate is a float carried as the text `json.dumps` writes (a number lexeme with a fraction or an
+exponent, `isFloatLex`); with that the text round trip holds for it as well -/
+theorem location_text_roundtrip (valid : String → JVal → Bool) (x : Fields) (hx : WellTyped Gen.Fields.location valid x)
+    (hf : ∀ f ∈ Gen.Fields.location.fields, ∀ r, x f.name = .float r → isFloatLex r.toList = true) :
+    ∀ j, encode Gen.Fields.location x = some j →
+      decodeText Gen.Fields.location valid Gen.Fields.neo4jNone (toJson Gen.Fields.location x) = .ok (some x) := by
+  intro j he
+  obtain ⟨hn, hs, _⟩ := specs_sane Gen.Fields.location (by simp [Gen.Fields.all])
+  refine (jsonfield_text_roundtrip _ valid hn hs x hx ?_).2 j he
+  intro f hfm
+  rcases hx.1 f hfm with ⟨e, _⟩ | ⟨hdom, _⟩
+  · rw [e]; exact (by decide : ∀ f ∈ Gen.Fields.location.fields, plain f.dflt = true) f hfm
+  · cases hv : x f.name with
+    | float r => simp only [plain]; exact hf f hfm r hv
+    | _ => rw [hv] at hdom; simp_all [inDomain, Gen.Fields.location, plain]
+
+example : decodeText Gen.Fields.location (fun _ _ => true) "None" (toJson Gen.Fields.location equator) = .ok (some equator) :=
+  location_text_roundtrip _ equator (equator_wellTyped Gen.Fields.location rfl rfl (Or.inr rfl))
+    (by
+      intro f hf r hr
+      simp only [Gen.Fields.location, List.mem_cons, List.mem_nil_iff, or_false] at hf
+      rcases hf with rfl | rfl | rfl <;> simp [equator, setF, defaults, dfltOf, Gen.Fields.location] at hr
+      subst hr; decide)
+    _ rfl
+
+/-- **Tags on text** -/
+theorem tags_text_roundtrip (okTag : String → Bool) (ts : List String) (h : ∀ t ∈ ts, okTag t = true) :
+    tagsDecodeText okTag (tagsEncode ts).render = .ok (some ts) := by
+  have hp : plain (tagsEncode ts) = true := by
+    simp only [tagsEncode, plain]
+    apply plainL_strs
+    simp [isStr]
+  simp only [tagsDecodeText, tagsEncode, render_arr_ne _ _ (Or.inl rfl), render_arr_ne _ _ (Or.inr rfl), or_self, if_false]
+  rw [show JVal.arr (ts.map .str) = tagsEncode ts from rfl, parse_render _ hp]
+  exact tags_roundtrip okTag ts h
+
+/-- **JSONData built from an object**: the stored text is valid JSON by the model of `json.loads` itself (no hypothesis on
+an abstract validity predicate) and `.data` is the object, for every float-free object with distinct keys -/
+theorem jsondata_obj_value (max : Nat) (j : JVal) (t : String) (hp : plain j = true) (hj : j ≠ .null)
+    (h : jdNew max j = .ok t) :
+    jdGet t "data" .null = some j ∧ jdFromText (fun s => (parse s).isSome) max t = .ok t := by
+  have ht : t = j.render ∧ t.length ≤ max := by
+    cases j <;> simp_all [jdNew, jdFromObj] <;> (split at h <;> simp_all <;> omega)
+  obtain ⟨rfl, hl⟩ := ht
+  refine ⟨by simp [jdGet, parse_render j hp], ?_⟩
+  simp [jdFromText, parse_render j hp, Nat.not_lt.2 hl]
+
+/-- **MaintenanceInfo on text**, dates and JSON both concrete: a finalized record with distinct node names whose dates are
+`isoformat()` texts reads back from its own `to_json()` text as itself -/
+theorem maintenance_text_roundtrip (m : MInfo) (hl : m.lock = true) (hn : (m.nodes.map (·.1)).Nodup)
+    (h : ∀ p ∈ m.nodes, EntryDates p.2) (j : JVal) (he : minfoEncode m = .ok j) :
+    minfoDecodeText Iso.isoCanon j.render = .ok (some m) := by
+  have hj : j = .obj (m.nodes.map fun p => (p.1, entryJson p.2)) := by
+    simp only [minfoEncode, hl] at he
+    injection he with he; exact he.symm
+  have hp : plain j = true := by
+    subst hj
+    simp only [plain, Bool.and_eq_true, decide_eq_true_eq, List.map_map]
+    constructor
+    · apply plainK_of_forall
+      intro p hpm
+      obtain ⟨q, _, rfl⟩ := List.mem_map.1 hpm
+      simp [entryJson, plain, plainK, plain_optStr]
+    · simpa [Function.comp_def] using hn
+  have hne : j.render ≠ "" := by subst hj; exact render_obj_ne _ _ (Or.inl rfl)
+  simp only [minfoDecodeText, hne, if_false, parse_render j hp]
+  exact maintenance_roundtrip_concrete m hl h j he
+
+open Gen.Fields in
+/-- **Gateway on text**: `Gateway.from_json(g.to_json())` is `g`, for every gateway the constructor builds -/
+theorem gateway_text_roundtrip (valid) (l g : Fields) (hl : WellTyped labels valid l)
+    (hg : gatewayNew labels valid (some l) = .ok (some g)) :
+    gatewayDecodeText labels valid neo4jNone (toJson labels g) = .ok (some g) := by
+  have hidem := gateway_ctor_idempotent valid l g hl hg
+  have hrt := gateway_roundtrip valid l g hl hg
+  -- the gateway's own labels are well-typed and encode to a non-empty object
+  simp only [gatewayDecode, gatewayEncode] at hrt
+  cases he : encode labels g with
+  | none =>
+    rw [he] at hrt
+    simp [decode, gatewayNew] at hrt
+  | some j =>
+    have hwt : WellTyped labels valid g := by
+      simp only [gatewayNew] at hg
+      by_cases h4 : (isSet (l "ipv4_subnet") && isSet (l "ipv4")) = true
+      · have h4' := Bool.and_eq_true_iff.1 h4
+        simp only [h4, if_true] at hg
+        rw [gatewayKeep valid "ipv4_subnet" "ipv4" l hl (by decide) (by decide) h4'.1 h4'.2] at hg
+        injection hg with hg; injection hg with hg; subst hg
+        exact gwPick_wellTyped valid _ _ l hl (by decide) (by decide) h4'.1 h4'.2
+      · simp only [h4] at hg
+        by_cases h6 : (isSet (l "ipv6_subnet") && isSet (l "ipv6")) = true
+        · have h6' := Bool.and_eq_true_iff.1 h6
+          simp only [h6, if_true, Bool.false_eq_true, if_false] at hg
+          rw [gatewayKeep valid "ipv6_subnet" "ipv6" l hl (by decide) (by decide) h6'.1 h6'.2] at hg
+          injection hg with hg; injection hg with hg; subst hg
+          exact gwPick_wellTyped valid _ _ l hl (by decide) (by decide) h6'.1 h6'.2
+        · simp [h6, gwFinish] at hg
+    have ht := all_classes_text_roundtrip labels (by simp [Gen.Fields.all]) (by decide) valid g hwt j he
+    simp only [gatewayDecodeText, ht, hidem]
+
+/-- the payload holds no float (hop lists are lists of names, a graph reference is a string) -/
+def PayloadPlain : Payload → Prop
+  | .unset => True
+  | .raw j => plain j = true
+  | .path a z => plain a = true ∧ plain z = true
+
+/-- **PathInfo / ERO on text** -/
+theorem pathinfo_text_roundtrip (p : PathInfo) (h : PIDomain p) (hp : PayloadPlain p.payload) :
+    (p.strict = .bool false → ∀ j, pathInfoEncode p = .ok j → pathInfoDecodeText j.render = .ok (some p)) ∧
+    (∀ b, p.strict = .bool b → ∀ j, eroEncode p = .ok j → eroDecodeText j.render = .ok (some p)) := by
+  have key : ∀ j, (pathInfoEncode p = .ok j ∨ eroEncode p = .ok j) → plain j = true ∧ j.render ≠ "" := by
+    intro j hj
+    obtain ⟨t, pl, st⟩ := p
+    have hobj : ∃ kvs, j = .obj kvs := by
+      rcases hj with hj | hj <;> (simp only [pathInfoEncode, eroEncode] at hj; split at hj <;> simp_all <;> exact ⟨_, hj.symm⟩)
+    refine ⟨?_, by obtain ⟨kvs, rfl⟩ := hobj; exact render_obj_ne _ _ (Or.inl rfl)⟩
+    cases t with
+    | none => simp [PIDomain] at h
+    | some t =>
+      rcases hj with hj | hj <;> cases t <;> cases pl <;>
+        simp_all [PIDomain, PayloadPlain, pathInfoEncode, eroEncode, payloadJson, pathDict] <;>
+        (subst hj; simp [plain, plainK, *]) <;> decide
+  constructor
+  · intro hs j he
+    obtain ⟨h1, h2⟩ := key j (Or.inl he)
+    simp only [pathInfoDecodeText, h2, if_false, parse_render j h1]
+    exact pathinfo_roundtrip p h hs j he
+  · intro b hs j he
+    obtain ⟨h1, h2⟩ := key j (Or.inr he)
+    simp only [eroDecodeText, h2, if_false, parse_render j h1]
+    exact ero_roundtrip p h b hs j he
+
+example : PayloadPlain (.path (.arr [.str "n1", .str "n2"]) .null) := by simp [PayloadPlain, plain, plainL]
 
 end FimVerif.C03
